@@ -228,7 +228,7 @@ func (c *Ctx) newFrame(fn *ssa.Function, caller *Frame) *Frame {
 		d = caller.Depth + 1
 	}
 	return &Frame{Fn: fn, Vals: map[ssa.Value]Value{}, Block: fn.Blocks[0], Caller: caller, Entered: map[*ssa.BasicBlock]bool{}, CallCount: map[string]int{}, Depth: d,
-		LoopOld: map[*ssa.BasicBlock]*Snapshot{}, LoopVariant: map[*ssa.BasicBlock]string{}, LoopFrames: map[*ssa.BasicBlock]map[string]*loopFrame{}}
+		LoopOld: map[*ssa.BasicBlock]*Snapshot{}, LoopVariant: map[*ssa.BasicBlock]string{}, LoopFrames: map[*ssa.BasicBlock]map[string]*loopFrame{}, LoopWM: map[*ssa.BasicBlock]Term{}}
 }
 
 // funcEnv builds the spec environment for the function under verification.
@@ -664,6 +664,11 @@ func (s *State) exec(ins ssa.Instruction) (next []*State, stop bool) {
 		s.havocAllHeap("go statement")
 	case *ssa.Send:
 		s.abstracted("channel send")
+		if cl, top := s.chanInvFor(ins.Chan.Type()); cl != nil {
+			env := c.funcEnv(s, top, false)
+			env.Vars["v"] = s.valueTV(s.get(ins.X), ins.X.Type())
+			s.obligeExpr("chan-send", cl.Src, c.posOf(ins.Pos()), env, cl.E, fmt.Sprintf("%s:%d: channel invariant", cl.File, cl.Line))
+		}
 	case *ssa.Select:
 		// A-CHAN: which case fires, and what is received, is arbitrary
 		s.abstracted("select statement: the chosen case and received values are arbitrary")
@@ -895,13 +900,28 @@ func (s *State) execUnOp(u *ssa.UnOp) {
 		}
 	case token.ARROW:
 		s.abstracted("channel receive")
+		var rv Value
+		okT := "true"
 		if u.CommaOk {
 			tt := u.Type().(*types.Tuple)
-			v := s.freshOf("recv", tt.At(0).Type())
+			rv = s.freshOf("recv", tt.At(0).Type())
 			ok := s.freshConst("recvok", "Bool")
-			s.Frame.Vals[u] = &Tuple{[]Value{v, ok}}
+			okT = ok
+			s.Frame.Vals[u] = &Tuple{[]Value{rv, ok}}
 		} else {
-			s.Frame.Vals[u] = s.freshOf("recv", u.Type())
+			rv = s.freshOf("recv", u.Type())
+			s.Frame.Vals[u] = rv
+		}
+		if cl, top := s.chanInvFor(u.X.Type()); cl != nil {
+			// a received value is one that was sent (when the channel was not closed and empty)
+			env := c.funcEnv(s, top, false)
+			env.Vars["v"] = s.valueTV(rv, c.under(u.X.Type()).(*types.Chan).Elem())
+			t, err := env.evalBool(cl.E)
+			if err != nil {
+				panic(evalErr(fmt.Sprintf("%s:%d: chaninv: %v", cl.File, cl.Line, err)))
+			}
+			s.assert(fmt.Sprintf("(=> %s %s)", okT, t))
+			c.assume("A-CHAN: a value received from a channel of " + typeKey(c.under(u.X.Type()).(*types.Chan).Elem()) + " satisfies the channel invariant checked at every send in " + c.Key)
 		}
 	default:
 		panic(abortPath{"unsupported unary op " + u.Op.String()})
@@ -1728,6 +1748,24 @@ func (s *State) havocAllHeap(reason string) {
 			s.C.assume("A-CAPTURE: captured variables of the closure under verification are not written by called code that has no contract")
 		}
 	}
+	if top != nil && top.Spec != nil && top.Spec.GoSequential {
+		// locals of a `gosequential` function that are shared only with the goroutines it starts (executed inline) and
+		// with its own deferred closures: no code without a contract ever holds their address
+		n := 0
+		for _, a := range s.C.privateBoxes(top.Fn) {
+			if l, ok := top.Vals[a].(*Loc); ok && l.Kind == LocBox && len(l.Path) == 0 {
+				if _, isStruct := s.C.under(l.Ty).(*types.Struct); isStruct {
+					continue
+				}
+				t, _ := s.load(l)
+				keep = append(keep, kept{l, t})
+				n++
+			}
+		}
+		if n > 0 {
+			s.C.assume("A-CAPTURE: locals shared only with the goroutines started by " + s.C.Key + " keep their values across calls without a contract")
+		}
+	}
 	defer func() {
 		for _, k := range keep {
 			s.store(k.l, k.t)
@@ -1914,7 +1952,7 @@ func (s *State) checkFrame(env *SpecEnv, pos string) {
 		}
 		r := c.fresh("fr")
 		c.declare(r, "Int")
-		path := s.Path.push(fmt.Sprintf("(assert (and (<= 0 %s) (<= %s WM!0)))", r, r))
+		path := s.Path.push(fmt.Sprintf("(assert (and (< 0 %s) (<= %s WM!0)))", r, r))
 		for _, a := range allowed[n] {
 			path = path.push(fmt.Sprintf("(assert (not (= %s %s)))", r, a))
 		}
@@ -1972,4 +2010,95 @@ func (c *Ctx) everyComp(env *SpecEnv, m string) (name, sort string, err error) {
 	}
 	name, sort, _ = c.fieldComp(ty, path[0])
 	return name, sort, nil
+}
+
+// chanInvFor: the channel invariant the function under verification declares for channels of this element type.
+func (s *State) chanInvFor(chT types.Type) (*Clause, *Frame) {
+	c := s.C
+	top := s.Frame
+	for top.Caller != nil {
+		top = top.Caller
+	}
+	if top.Spec == nil || len(top.Spec.ChanInvs) == 0 {
+		return nil, nil
+	}
+	ch, ok := c.under(chT).(*types.Chan)
+	if !ok {
+		return nil, nil
+	}
+	name := typeKey(ch.Elem())
+	if n, ok := types.Unalias(ch.Elem()).(*types.Named); ok {
+		name = n.Obj().Name()
+	}
+	if cl, ok := top.Spec.ChanInvs[name]; ok {
+		return cl, top
+	}
+	return nil, nil
+}
+
+// privateBoxes: heap-allocated locals of fn whose address is used only by loads and stores in fn itself and by
+// closures that fn only starts as goroutines, defers or calls directly.
+func (c *Ctx) privateBoxes(fn *ssa.Function) []*ssa.Alloc {
+	if c.privBoxes == nil {
+		c.privBoxes = map[*ssa.Function][]*ssa.Alloc{}
+	}
+	if v, ok := c.privBoxes[fn]; ok {
+		return v
+	}
+	closureOK := func(mc *ssa.MakeClosure) bool {
+		refs := mc.Referrers()
+		if refs == nil {
+			return false
+		}
+		for _, r := range *refs {
+			switch r := r.(type) {
+			case *ssa.Go:
+				if r.Call.Value != mc {
+					return false
+				}
+			case *ssa.Defer:
+				if r.Call.Value != mc {
+					return false
+				}
+			case *ssa.Call:
+				if r.Call.Value != mc {
+					return false
+				}
+			case *ssa.DebugRef:
+			default:
+				return false
+			}
+		}
+		return true
+	}
+	var out []*ssa.Alloc
+	for _, b := range fn.Blocks {
+		for _, ins := range b.Instrs {
+			a, ok := ins.(*ssa.Alloc)
+			if !ok || !a.Heap || a.Referrers() == nil {
+				continue
+			}
+			priv := true
+			for _, r := range *a.Referrers() {
+				switch r := r.(type) {
+				case *ssa.Store:
+					if r.Val == a {
+						priv = false
+					}
+				case *ssa.UnOp, *ssa.DebugRef:
+				case *ssa.MakeClosure:
+					if !closureOK(r) {
+						priv = false
+					}
+				default:
+					priv = false
+				}
+			}
+			if priv {
+				out = append(out, a)
+			}
+		}
+	}
+	c.privBoxes[fn] = out
+	return out
 }
